@@ -61,6 +61,16 @@
 #include <stdio.h>
 #include <inttypes.h>
 #include <math.h>
+#ifdef UREFATTR_AS_C01
+/* The same generated histories serve C01 at uref level ("each uref, buffer, dictionary ... is destroyed exactly once ... nothing
+ * remains allocated"): only the memory oracles are reported (ASan, the end-of-case audit of the four managers and of the counting
+ * umem), and in a share of the cases an allocation inside an operation is refused (engine/faultmalloc.h): the operation may fail,
+ * but what it had built must be given back exactly once. */
+#include "faultmalloc.h"
+#undef malloc
+#undef calloc
+#undef realloc
+#endif
 
 /* accessors declared by the harness with the repository's macros */
 UREF_ATTR_STRING(vt, s_a, "v.a", test string)
@@ -100,6 +110,8 @@ enum { CL_REPL_DIFF, CL_REPL_SAME, CL_DEL_NOTLAST, CL_DEL_ABSENT, CL_GREW, CL_AL
        CL_CL_ALL, CL_CL_STOP, CL_DL_ALL, CL_DL_STOP,
        CL_HEX_OK, CL_HEX_EMPTY, CL_HEX_ODD, CL_HEX_BAD_REFUSED, CL_HEX_BAD_TAKEN, CL_HEX_VA,
        CL_SETVA, CL_SETDEFVA, CL_PRIV, CL_BOOLVA, CL_FORK, CL_SIBLING, CL_SIBLING_CONTROL, CL_ATTACH, CL_DETACH, CL_NCLASSES };
+/* (all 64 class bits are taken: the C01 twin reports refused allocations in the place of a class it has no use for) */
+#define CL_FAULT CL_IMPORT_NULL_SRC
 static const char *const class_names[] = {
     "replace_var_different_size", "replace_var_same_size", "delete_not_last", "delete_absent_refused", "storage_grew",
     "alias_source", "shorthand_accessor", "printf_named_accessor", "named_with_shorthand_name", "prefix_names_same_type",
@@ -316,8 +328,14 @@ struct ctx {
 static uint8_t valbuf[8192];
 
 #define R(...) do { if (c->render) vp_render(c->rep, __VA_ARGS__); } while (0)
+#ifdef UREFATTR_AS_C01
+#define FAILK(oracle, ...) do { } while (0)
+#define REFUSED() (vp_fault_refused() > 0)
+#else
+#define REFUSED() false
 #define FAILK(oracle, ...) do { if (!c->ret) { char k_[96]; snprintf(k_, sizeof k_, "C10/%s/%s", oracle, c->opname); \
                                 c->ret = vp_fail(c->rep, k_, __VA_ARGS__); } } while (0)
+#endif
 #define CLS(b) (c->cls |= (uint64_t)1 << (b))
 static bool base_var(int b) { return b == T_O || b == T_S; }
 static bool is_flag(int k) { return accs[k].base == 0; }
@@ -792,7 +810,9 @@ static void op_import(struct ctx *c)
     snprintf(c->what, sizeof c->what, "uref_attr_import(u%d <- u%d)", dst, src);
     c->hash = vp_hash_mix(c->hash, dst * 8 + src);
     if (!md->u->udict) CLS(CL_IMPORT_NULL_DST);
+#ifndef UREFATTR_AS_C01
     if (!ms->u->udict) CLS(CL_IMPORT_NULL_SRC);
+#endif
     int err = uref_attr_import(md->u, ms->u);
     R("  %s -> %d\n", c->what, err);
     if (!ubase_check(err)) { FAILK("import-refused", "%s returns error %d", c->what, err); return; }
@@ -1227,7 +1247,7 @@ static void op_fork(struct ctx *c)
         return;                                   /* the lookups that follow require: no attribute, no flag, no ubuf */
     }
     struct ubuf *b = ubuf_block_alloc(c->bmgr, 1 + (sel >> 4));
-    if (!b) { c->ret = vp_internal(c->rep, "ubuf_block_alloc"); return; }
+    if (!b) { if (REFUSED()) return; c->ret = vp_internal(c->rep, "ubuf_block_alloc"); return; }
     snprintf(c->what, sizeof c->what, "u%d = uref_fork(u%d, new ubuf)", slot, s);
     m->u = uref_fork(ms->u, b);
     R("  %s -> %s\n", c->what, m->u ? "ok" : "NULL");
@@ -1247,7 +1267,7 @@ static void op_ubuf(struct ctx *c)
     c->hash = vp_hash_mix(c->hash, (sel & 3) << 4 | ui << 1 | (m->ub != NULL));
     if (!m->ub || (sel & 3) == 2) {
         struct ubuf *b = ubuf_block_alloc(c->bmgr, 1 + (sel >> 4));
-        if (!b) { c->ret = vp_internal(c->rep, "ubuf_block_alloc"); return; }
+        if (!b) { if (REFUSED()) return; c->ret = vp_internal(c->rep, "ubuf_block_alloc"); return; }
         snprintf(c->what, sizeof c->what, "uref_attach_ubuf(u%d, new ubuf)%s", ui, m->ub ? " [the one it held is freed]" : "");
         R("  %s\n", c->what);
         uref_attach_ubuf(m->u, b);
@@ -1294,6 +1314,10 @@ static int run(const uint8_t *tp_, size_t len, struct vp_report *rep, unsigned f
     if (!c->umgr || !c->bmgr) return vp_internal(rep, "manager allocation");
     R("C10 uref attributes: pool_depth=%d udict min_size=%d extra_size=%d control_attr_size=%d\n", depth, minsz, extra, ctlsz);
     if (depth) CLS(CL_POOL);
+#ifdef UREFATTR_AS_C01
+    bool faultmode = cfg >= 96; unsigned nfaults = 0;      /* (cfg 72..255 alias other configurations) */
+    if (faultmode) R("  [allocation faults]\n");
+#endif
     R("  u0 = uref_alloc()\n");
     do_alloc(c, 0, false);
 
@@ -1304,6 +1328,11 @@ static int run(const uint8_t *tp_, size_t len, struct vp_report *rep, unsigned f
         bool second = raw >= NEWOPS && raw < NEWOPS + 64;
         c->hash = vp_hash_mix(c->hash, second ? 64 + sub : op);
         c->what[0] = 0; c->touched = -1; c->touched_key = -1;
+#ifdef UREFATTR_AS_C01
+        /* (every octet of the operation byte is taken: whether and which allocation is refused follows from the history so far) */
+        unsigned nth = (faultmode && (c->hash & 3) == 0) ? 1 + (c->hash >> 2) % 4 : 0;
+        vp_fault_arm(nth);
+#endif
         if (second) {                              /* the second family; the other octets decode as they always did */
             if (sub <= 17) op_match(c);
             else if (sub <= 25) op_copy_list(c);
@@ -1324,6 +1353,11 @@ static int run(const uint8_t *tp_, size_t len, struct vp_report *rep, unsigned f
         else if (op == 28) op_alloc(c);
         else if (op == 29) op_free(c);
         else op_set(c);
+#ifdef UREFATTR_AS_C01
+        vp_fault_disarm();
+        if (nth && vp_fault_refused()) { nfaults++; R("    (allocation %u inside the operation was refused)\n", nth); c->hash = vp_hash_mix(c->hash, 0xfa00 + nth); }
+        for (int i = 0; i < MAXU; i++) if (c->mu[i].u) c->mu[i].ub = c->mu[i].u->ubuf;       /* the model follows the urefs */
+#endif
         if (!c->ret) check_all(c);
         if (c->touched >= 0 && c->mu[c->touched].u)
             for (int j = 0; j < MAXU && !c->ret; j++) if (j != c->touched && c->mu[j].u) {
@@ -1342,6 +1376,7 @@ static int run(const uint8_t *tp_, size_t len, struct vp_report *rep, unsigned f
     uref_mgr_vacuum(c->umgr);
     udict_mgr_vacuum(c->dmgr);
     ubuf_mgr_vacuum(c->bmgr);
+    if (!leak && !urefcount_single(c->bmgr->refcount)) leak = "ubuf manager still referenced (leaked ubuf)";
     ubuf_mgr_release(c->bmgr);
     uref_mgr_release(c->umgr);
     if (!leak && !urefcount_single(c->dmgr->refcount)) leak = "udict manager still referenced (leaked udict)";
@@ -1352,12 +1387,32 @@ static int run(const uint8_t *tp_, size_t len, struct vp_report *rep, unsigned f
     if (!leak && st->live) { snprintf(lm, sizeof lm, "%ld memory areas (%ld octets) still allocated", st->live, st->live_bytes); leak = lm; }
     if (!leak && !umem_count_single(c->umem)) leak = "umem manager still referenced";
     umem_mgr_release(c->umem);
+#ifdef UREFATTR_AS_C01
+    if (leak && !c->ret) c->ret = vp_fail(rep, "C01/audit-urefs", "%s", leak);
+    if (nfaults) CLS(CL_FAULT);
+#else
     if (leak && !c->ret) c->ret = vp_internal(rep, "fixture: %s", leak);
+#endif
 
     rep->case_hash = c->hash;
     rep->classes = c->cls;
     rep->nontrivial = (c->cls & (1u << CL_REPL_DIFF | 1u << CL_DEL_NOTLAST | 1u << CL_GREW | 1u << CL_ALIAS)) != 0;
+#ifdef UREFATTR_AS_C01
+    rep->nontrivial = rep->nontrivial && (c->cls & ((uint64_t)1 << CL_DUP));
+#endif
     return c->ret;
 }
 
+#ifdef UREFATTR_AS_C01
+static const char *class_names_c01[CL_NCLASSES + 1];
+static const char *const *names_c01(void)
+{
+    for (int i = 0; i <= CL_NCLASSES; i++) class_names_c01[i] = class_names[i];
+    class_names_c01[CL_FAULT] = "allocation_refused_inside_operation";
+    return class_names_c01;
+}
+__attribute__((constructor)) static void names_init(void) { names_c01(); }
+const struct vp_executor vp_executor = { "C01", "urefs", 320, class_names_c01, run, NULL };
+#else
 const struct vp_executor vp_executor = { "C10", "urefattr", 320, class_names, run, NULL };
+#endif
